@@ -163,3 +163,74 @@ Definition keeps_mail (st : bool) (s s' : state) : Prop :=
   forall b y, get s b = Some y -> exists y', get s' b = Some y' /\
     a_sq y' = a_sq y /\ a_uq y' = a_uq y /\ a_paused y' = a_paused y /\
     (st = true -> a_stash y' = a_stash y).
+
+(** the instructions that change the subscription table *)
+Definition stream_instr (i : instr) : bool :=
+  match i with IAct (ASub _) | IAct (AUnsub _) | IAct AUnsubAll | ICleanup => true | _ => false end.
+
+(* ------------------------------------------------------------------ a deterministic scheduler (for the Examples only) *)
+
+(** the event a thread in the middle of its instruction list waits for (choice 0 for map ranges) *)
+Definition thread_event (s : state) (t : tid) : option event :=
+  match pend_of s t with
+  | IEnqR _ _ _ _ :: _ | IEnqMb _ _ :: _ | IEnqAny _ _ _ _ :: _ | ISupPause _ _ _ _ :: _ => Some (EvPush t 0)
+  | IEnqDone :: _ => Some (EvEnqDone t)
+  | IPauseSt :: _ => Some (EvPauseSt t)
+  | IResume1 :: _ => Some (EvResume1 t)
+  | IResume2 :: _ => Some (EvResume2 t)
+  | IAct _ :: _ => match t with TX i => Some (EvStart i) | TA _ => None end
+  | _ => None
+  end.
+
+Definition actor_event (s : state) (a : aid) : option event :=
+  match thread_event s (TA a) with
+  | Some ev => Some ev
+  | None =>
+      match get s a with
+      | Some x =>
+          match a_cons x with
+          | CH _ => Some (EvHandle a)
+          | C1 => Some (EvSysPop a)
+          | C2 => Some (EvLoadPaused a)
+          | C3 => Some (EvUserPop a)
+          | C0 => match a_sq x, a_uq x, a_paused x with
+                  | _ :: _, _, _ => Some (EvSysPop a)
+                  | [], _ :: _, false => Some (EvSysPop a)
+                  | _, _, _ => None
+                  end
+          | CBusy _ => None
+          end
+      | None => None
+      end
+  end.
+
+Fixpoint first_some {A} (f : nat -> option A) (n k : nat) : option A :=
+  match n with O => None | S n' => match f k with Some v => Some v | None => first_some f n' (S k) end end.
+
+(** lowest actor index first, then the external callers *)
+Definition next_event (s : state) : option event :=
+  match first_some (actor_event s) (length (actors s)) 0 with
+  | Some ev => Some ev
+  | None => first_some (fun i => thread_event s (TX i)) (length (exts s)) 0
+  end.
+
+Fixpoint auto_events (fuel : nat) (s : state) : list event :=
+  match fuel with
+  | O => []
+  | S f => match next_event s with Some ev => ev :: auto_events f (step s ev) | None => [] end
+  end.
+
+(* ------------------------------------------------------------------ witness: a failure report from a stopping actor *)
+
+(** top-level actor [40]: OnLaunch panics, OnKill spawns a child (so the actor stays in state killing until
+    that child has terminated).  Caller 0 spawns it, caller 1 kills it through a parsed reference.  In the
+    schedule below the kill overtakes OnLaunch (ActorOf registers the path before it enqueues OnLaunch: the
+    known finding C05-spawn-race-first-message), so OnLaunch is handled in state killing. *)
+Definition wit_child : spec := Spec 1 [] [] [] 0 [] true [] false.
+Definition wit_top : spec := Spec 40 [APanic] [ASpawn wit_child] [] 0 [] true [] false.
+Definition wit_scripts : list (list action) := [[ASpawn wit_top]; [AKill (XPath [40%N]) false]].
+Definition wit_events : list event :=
+  [EvStart 0; EvStart 1; EvPush (TX 1) 0; EvEnqDone (TX 1); EvSysPop 1; EvHandle 1;
+   EvPush (TA 1) 0; EvEnqDone (TA 1); EvPush (TA 1) 0; EvEnqDone (TA 1);
+   EvPush (TX 0) 0; EvSysPop 1; EvHandle 1].
+Definition wit_state : state := run_events wit_events (init_with wit_scripts).
